@@ -42,7 +42,8 @@ class _Types(list):  # type: ignore[type-arg]
         return _types.GenericAlias(t.__origin__, t.__args__) if isinstance(t, _types.GenericAlias) else t
 
 
-TYPES = _Types(_CLASSES[:3] + [_CLASSES[3][int]] + _CLASSES[4:])
+# (… and type 2 is that alias's origin class: `T2` and `T2[int]` are two different keys)
+TYPES = _Types(_CLASSES[:3] + [_CLASSES[2][int]] + _CLASSES[4:])
 TYPE_ID = {**{t: i for i, t in enumerate(_CLASSES)}, **{t: i for i, t in enumerate(TYPES)}}
 # exception classes user code raises: a plain one, subclasses of two builtins the library itself
 # raises and handles (LookupError: ResourceNotFound; RuntimeError), and the builtin TimeoutError (which
@@ -69,6 +70,32 @@ class CallableObject:
 
     def __bool__(self) -> bool:
         return not self.falsy
+
+    # … and two of them compare equal (value objects, bound methods of one object): equal is not the same
+    def __eq__(self, other: object) -> bool:
+        return isinstance(other, CallableObject)
+
+    def __hash__(self) -> int:
+        return 7
+
+
+class Names(str, __import__("enum").Enum):
+    """Resource names given as members of a str-mixin Enum: equal to (and hashing like) the plain string, with a
+    `str()` of their own (`'Names.A'`)."""
+    A = "a"
+
+
+def as_given(name: Any) -> Any:
+    return Names.A if name == "a" and type(name) is str else name
+
+
+_REQ: dict[type, type] = {}
+
+
+def _request_context_class(base: type) -> type:
+    if base not in _REQ:
+        _REQ[base] = type("RequestContext", (base,), {})
+    return _REQ[base]
 
 
 class FactoryError(Exception):
@@ -623,7 +650,7 @@ class Kernel:
                     types = ",".join(str(n) for n in sorted(TYPE_ID.get(t, 99) for t in ev.resource_types))
                     ok = ev.source is ctx and ev.topic == "resource_added" and isinstance(ev.time, float)
                     self.events.append(
-                        f"ev {cid} [{types}] {ev.resource_name} {ev.resource_description or '-'} "
+                        f"ev {cid} [{types}] {str.__str__(ev.resource_name) if isinstance(ev.resource_name, str) else ev.resource_name} {ev.resource_description or '-'} "
                         f"{'f' if ev.is_factory else 'r'}" + ("" if ok else " BADSTAMP"))
         del ctx
 
@@ -903,6 +930,8 @@ class Worker:
             if cmd.get("parent") is not None and cmd["parent"] not in kern.ctxs:
                 return ["badOp"]
             parent = kern.ctxs[cmd["parent"]] if cmd.get("parent") is not None else None
+            if cmd["c"] % 3 == 0:
+                Context = _request_context_class(Context)      # a user-defined subclass (a "request context")
             ctx = Context(parent) if parent is not None else Context()
             keep = []
             while kern.freed_ids and id(ctx) not in kern.freed_ids and len(keep) < 300:
@@ -975,7 +1004,7 @@ class Worker:
                     kw["teardown_callback"] = ["not callable", 0, "", (), 5][cmd["val"] % 5]
                 elif cmd["td"] is not None:
                     kw["teardown_callback"] = kern.make_cb(cmd["td"], cmd["c"])
-                return kern.guard(lambda: target.add_resource(value, cmd["name"], types, **kw))
+                return kern.guard(lambda: target.add_resource(value, as_given(cmd["name"]), types, **kw))
             if op == "addf":
                 fn = kern.make_factory(cmd)
                 ftypes: Any = [TYPES[i] for i in cmd["types"]]
@@ -986,9 +1015,9 @@ class Worker:
                     kw["description"] = cmd["desc"]
                 if not cmd.get("annot"):
                     kw["types"] = ftypes[0] if len(ftypes) == 1 and cmd.get("single") else ftypes
-                return kern.guard(lambda: target.add_resource_factory(fn, cmd["name"], **kw))
+                return kern.guard(lambda: target.add_resource_factory(fn, as_given(cmd["name"]), **kw))
             if op == "getnw":
-                return kern.guard(lambda: target.get_resource_nowait(TYPES[cmd["ty"]], cmd["name"], optional=cmd["opt"]), val=True,
+                return kern.guard(lambda: target.get_resource_nowait(TYPES[cmd["ty"]], as_given(cmd["name"]) if cmd["ty"] % 2 else cmd["name"], optional=cmd["opt"]), val=True,
                                   want=(TYPES[cmd["ty"]], cmd["name"]))
             if op == "get" and cmd.get("defer"):
                 # only the coroutine object is made now; it is awaited when the matching `resume` arrives
@@ -1024,7 +1053,7 @@ class Worker:
                 return None
             if op == "getall":
                 d = target.get_resources(TYPES[cmd["ty"]])
-                return ["all [" + ", ".join(f"{k}={val_name(v)[4:]}" for k, v in d.items()) + "]"]
+                return ["all [" + ", ".join(f"{str.__str__(k)}={val_name(v)[4:]}" for k, v in d.items()) + "]"]
             if op == "addtd":
                 if cmd.get("via") == "ctxtd" and cmd["callable"]:
                     # the @context_teardown route: an async generator whose second half is the callback
